@@ -69,6 +69,7 @@ class Run:
         self.assumptions = []
         self.violations = []  # dicts with at least 'what'
         self.known_hits = []
+        self.is_replay = False   # a replay re-judges one recorded case: it does not rewrite the evidence file
 
     def add_tlc(self, name, res, exhaustive=True):
         self.cov["states"] += res.distinct
@@ -87,6 +88,9 @@ class Run:
                     self.known_hits.append(f["id"])
                     print(f"KNOWN-FINDING: property={self.prop} {f['what']}")
                 return
+        if len(self.violations) >= 5:
+            self.suppressed = getattr(self, "suppressed", 0) + 1
+            return
         os.makedirs(REPLAY_DIR, exist_ok=True)
         path = os.path.join(REPLAY_DIR, f"{self.prop}-{self.seed}-{len(self.violations)}.json")
         with open(path, "w") as fh:
@@ -103,10 +107,11 @@ class Run:
             cov["samples"] = ["(no sample recorded)"]
         ev = dict(property_id=self.prop, tier=self.tier, seed=self.seed, level=self.level, coverage=cov,
                   assumptions=self.assumptions, wall_s=round(time.time() - self.t0, 2), violations=len(self.violations))
-        tmp = os.path.join(EVIDENCE_DIR, f"{self.prop}.json.tmp")
-        with open(tmp, "w") as fh:
-            json.dump(ev, fh, indent=1, default=str)
-        os.replace(tmp, os.path.join(EVIDENCE_DIR, f"{self.prop}.json"))
+        if not self.is_replay:
+            tmp = os.path.join(EVIDENCE_DIR, f"{self.prop}.json.tmp")
+            with open(tmp, "w") as fh:
+                json.dump(ev, fh, indent=1, default=str)
+            os.replace(tmp, os.path.join(EVIDENCE_DIR, f"{self.prop}.json"))
         n = len(self.violations)
         print(f"{self.prop} {self.tier} seed={self.seed}: states={cov['states']} transitions={cov['transitions']} "
               f"impl_traces={cov['traces_validated_against_impl']} evaluations={cov['evaluations']} "
